@@ -1044,7 +1044,7 @@ func handleConnections(closed <-chan struct{}, parentwg *sync.WaitGroup, message
 		for {
 			select {
 			case <-closed:
-				break
+				return
 			case bid := <-deny:
 				err := dcs.DeleteAndCloseParent(bid) //close all connections with this booking id
 				verifhook.Point("xbar.deny_processed")
